@@ -144,6 +144,38 @@ def named_update_case(col, rng):
     col.add({"sig": "native::totals::named_update_weak_variable", "what": bad, "input": {"update": ["_model_log_prob", "_model_log_lik", "_model_log_prior"], "auto_update": False}} if bad else None)
 
 
+def outside_assignment_case(col, rng):
+    """values assigned while the graph is not in a model - before the first build, and after pop_nodes_and_vars() - then (re)built:
+    the totals are the joint density at the values the variables hold at build time (direct TFP reference)"""
+    y_np = rng.normal(size=4).astype(np.float32)
+    log_sigma = lsl.param(np.float32(0.0), lsl.Dist(tfd.Normal, loc=0.0, scale=1.0), name="log_sigma")
+    sigma = lsl.Var(lsl.Calc(jnp.exp, log_sigma), name="sigma")
+    mu = lsl.param(np.float32(0.1), lsl.Dist(tfd.Normal, loc=0.0, scale=3.0), name="mu")
+    y = lsl.obs(y_np, lsl.Dist(tfd.Normal, loc=mu, scale=sigma), name="y")
+
+    def ref(ls, m):
+        prior = float(tfd.Normal(0.0, 1.0).log_prob(np.float32(ls))) + float(tfd.Normal(0.0, 3.0).log_prob(np.float32(m)))
+        lik = float(jnp.sum(tfd.Normal(np.float32(m), np.exp(np.float32(ls))).log_prob(y_np)))
+        return prior, lik, prior + lik
+
+    bad = None
+    log_sigma.value = np.float32(1.0)  # outside a model: sigma's calculator was evaluated at construction with exp(0)
+    mu.value = np.float32(-0.8)
+    model = lsl.GraphBuilder().add(y).build_model()
+    got = (float(model.log_prior), float(model.log_lik), float(model.log_prob))
+    if not np.allclose(got, ref(1.0, -0.8), rtol=1e-4, atol=1e-3):
+        bad = f"values assigned before build_model(): (log_prior, log_lik, log_prob) = {got}, joint density at the build-time values {ref(1.0, -0.8)}"
+    if bad is None:
+        _nodes, vars_ = model.pop_nodes_and_vars()
+        vars_["log_sigma"].value = np.float32(-0.5)
+        vars_["mu"].value = np.float32(2.0)
+        model2 = lsl.GraphBuilder().add(vars_["y"]).build_model()
+        got = (float(model2.log_prior), float(model2.log_lik), float(model2.log_prob))
+        if not np.allclose(got, ref(-0.5, 2.0), rtol=1e-4, atol=1e-3):
+            bad = f"values assigned after pop_nodes_and_vars(), model rebuilt: (log_prior, log_lik, log_prob) = {got}, joint density at the build-time values {ref(-0.5, 2.0)}"
+    col.add({"sig": "native::totals::assigned_outside_a_model", "what": bad, "input": {"sequence": ["construct", "assign", "build", "pop", "assign", "build"]}} if bad else None)
+
+
 def repeated_build_case(col, rng):
     """one builder with user-supplied total nodes, built three times (copy=True, copy=True, copy=False): every model forwards the user nodes"""
     mu = lsl.param(np.float32(rng.normal()), lsl.Dist(tfd.Normal, loc=0.0, scale=2.0), name="mu")
@@ -165,6 +197,8 @@ def repeated_build_case(col, rng):
 def bounded(tier, seed):
     rng = np.random.default_rng(seed)
     col = util.Collector()
+    from rtc.c01 import CORE_RULE, core_native
+    core_native(col, seed)
     try:
         from rtc.c01 import inplace_case
         sub = util.Collector()
@@ -177,6 +211,10 @@ def bounded(tier, seed):
         named_update_case(col, rng)
     except Exception as e:
         col.add({"sig": f"native::totals::exception::{type(e).__name__}", "what": str(e)[:200], "input": {"scenario": "named update, weak variable with distribution"}})
+    try:
+        outside_assignment_case(col, rng)
+    except Exception as e:
+        col.add({"sig": f"native::totals::exception::{type(e).__name__}", "what": str(e)[:200], "input": {"scenario": "values assigned outside a model"}})
     try:
         repeated_build_case(col, rng)
     except Exception as e:
@@ -198,8 +236,8 @@ def bounded(tier, seed):
     except Exception as e:
         col.add({"sig": f"native::totals::distreg_exception::{type(e).__name__}", "what": str(e)[:200], "input": {}})
     return {"evaluations": col.evals, "distinct_nontrivial": len(combos) * reps + 1,
-            "rule": (f"BOUNDED: hierarchical model family (InverseGamma variance with/without auto-transform, Normal mean, degenerate-MVN coefficient prior via from_penalty, weak linear "
+            "rule": (CORE_RULE + "; " + f"BOUNDED: hierarchical model family (InverseGamma variance with/without auto-transform, Normal mean, degenerate-MVN coefficient prior via from_penalty, weak linear "
                      f"predictor, vector Normal response stored per observation or summed, an unflagged distributed variable, optional user log-lik node) x {reps} seeded value draws, each "
                      "checked after build and after re-assigning values: log_prob / log_lik / log_prior against direct TFP evaluation; one DistRegBuilder model (flags exactly-one, "
-                     f"prob = lik + prior = sum of distribution nodes). seed={seed}"),
+                     f"prob = lik + prior = sum of distribution nodes); values assigned while the graph is outside a model (before build, after pop_nodes_and_vars) then built. seed={seed}"),
             "samples": [{"per_obs": False, "auto_transform": True, "user_lik_node": False}], "exhaustive": False, "violations": col.violations}
